@@ -367,3 +367,12 @@ def k6(ctx):
 
 
 RULES = [k1, k2, k3, k4, k5, k6]
+
+
+@rule("K1w", doc="compile-fail witnesses: proof objects cannot be forged or tampered with outside the kernel", thorough_only=True, once=True)
+def k1w(ctx):
+    from salib import witness
+    witness.check(ctx, ['c07_forge_proof', 'c07_tamper_proof'])
+
+
+RULES.append(k1w)
